@@ -30,7 +30,8 @@ Lemma state_event_source w i old new tgt :
   In (EvState old new tgt) (o_evs (snd (step w i))) ->
   exists o n p, i = StateChanged true o n p.
 Proof.
-  destruct i; cbn [step]; try (cbn; intros H; repeat (destruct H as [H|H]; try discriminate); contradiction).
+  destruct i; cbn [step]; rewrite ?on_about_to_finish_evs, ?on_source_setup_evs;
+    try (cbn; intros H; repeat (destruct H as [H|H]; try discriminate); contradiction).
   - destruct from_playbin; [intros _; eauto|cbn; contradiction].
   - unfold on_buffering. destruct (rank (target w) <? rank PAUSED); [cbn; contradiction|].
     destruct mode as [[]|]; cbn; contradiction.
@@ -129,6 +130,8 @@ Proof.
       cbn [fst]; destruct ((pct <? 10) && negb (buffering w)), (pct =? 100); reflexivity.
   - unfold on_tag. destruct (pending_tags w); [reflexivity|].
     destruct (tag_diff (tags w) (convert_taglist tl)). reflexivity.
+  - apply on_about_to_finish_st.
+  - rewrite on_source_setup_world. reflexivity.
 Qed.
 
 Theorem state_is_last_reached : forall ins, st (final init ins) = last_reached ins.
@@ -164,8 +167,39 @@ Proof.
       destruct mode as [[]|]; cbn; discriminate.
     + unfold on_tag. destruct (pending_tags w); [cbn; discriminate|].
       destruct (tag_diff (tags w) (convert_taglist tl)). cbn. discriminate.
+    + unfold on_about_to_finish. destruct in_actor_thread; [cbn; discriminate|].
+      destruct (atf_cb (cfg w)); [|cbn; discriminate].
+      destruct next as [[u fl]|]; cbn; discriminate.
+    + unfold on_source_setup. destruct (negb has_factory); cbn; discriminate.
   - intros [o ->]. reflexivity.
 Qed.
+
+(* every exception the modelled code can raise *)
+Theorem raises_characterised : forall w i e,
+  o_ret (snd (step w i)) = Raise e ->
+  (e = KeyError /\ exists o, i = StateChanged true o VOID VOID) \/
+  (e = AudioException /\ exists l p h, i = SourceSetup false l p h).
+Proof.
+  intros w i e H. destruct e.
+  - left. split; [reflexivity|]. apply (raises_only_on_void w i), H.
+  - right. split; [reflexivity|].
+    destruct i; cbn [step] in H; try (cbn in H; discriminate).
+    + destruct from_playbin; [|cbn in H; discriminate].
+      unfold on_state_changed in H. destruct n, p; cbn in H; try discriminate;
+        destruct (image (target w)); cbn in H; discriminate.
+    + unfold on_buffering in H. destruct (rank (target w) <? rank PAUSED); [cbn in H; discriminate|].
+      destruct mode as [[]|]; cbn in H; discriminate.
+    + unfold on_tag in H. destruct (pending_tags w); [cbn in H; discriminate|].
+      destruct (tag_diff (tags w) (convert_taglist tl)). cbn in H. discriminate.
+    + unfold on_about_to_finish in H. destruct in_actor_thread; [cbn in H; discriminate|].
+      destruct (atf_cb (cfg w)); [|cbn in H; discriminate].
+      destruct next as [[u fl]|]; cbn in H; discriminate.
+    + unfold on_source_setup in H. destruct has_factory; [cbn in H; discriminate|]. eauto.
+Qed.
+
+Theorem source_setup_raise_changes_nothing : forall w l p h,
+  step w (SourceSetup false l p h) = (w, mkOut (Raise AudioException) [] []).
+Proof. reflexivity. Qed.
 
 Theorem raise_changes_nothing : forall w o,
   step w (StateChanged true o VOID VOID) = (w, mkOut (Raise KeyError) [] []).
@@ -186,7 +220,7 @@ Qed.
 
 Lemma step_stopped_followed w i : stopped_followed (o_evs (snd (step w i))) = true.
 Proof.
-  destruct i; cbn [step]; try reflexivity.
+  destruct i; cbn [step]; rewrite ?on_about_to_finish_evs, ?on_source_setup_evs; try reflexivity.
   - destruct from_playbin; [|reflexivity]. unfold on_state_changed.
     destruct n, p; cbn; try reflexivity; destruct (target w); cbn; reflexivity.
   - unfold on_buffering. destruct (rank (target w) <? rank PAUSED); [reflexivity|].
